@@ -259,6 +259,21 @@ def m_vec_push(ex, callee, args, ret_ty, frame):
     return VUnit()
 
 
+def m_vec_remove(ex, callee, args, ret_ty, frame):
+    seq = deref(ex, args[0])
+    if not isinstance(seq, VSeq):
+        return NOT_HANDLED
+    _need_concrete(seq, "remove")
+    i = args[1].concrete() if isinstance(args[1], VInt) else None
+    if i is None:
+        raise Unsupported("Vec::remove at a symbolic index")
+    if i >= seq.length:
+        raise PathEnd("panic", "Vec::remove: index out of bounds")
+    v = seq.items.pop(i)
+    seq.length -= 1
+    return v
+
+
 def m_vec_pop(ex, callee, args, ret_ty, frame):
     seq = deref(ex, args[0])
     if not isinstance(seq, VSeq):
@@ -458,6 +473,10 @@ def drain(ex, it, frame):
     if isinstance(it, VIter) and it.kind == "owned":
         _need_concrete(it.seq, "drain")
         return [vcopy(x) for x in it.seq.items[it.pos:]]
+    if isinstance(it, VIter) and it.kind == "ref":
+        seq = deref(ex, it.src)
+        _need_concrete(seq, "drain")
+        return [VRef(it.src.root, it.src.path + (("i", i),), False) for i in range(it.pos, seq.length)]
     if isinstance(it, VSeq):
         _need_concrete(it, "drain")
         return [vcopy(x) for x in it.items]
@@ -489,6 +508,34 @@ def m_iter_all_any(ex, callee, args, ret_ty, frame):
         ok = r.b if not isinstance(r.b, bool) else z3.BoolVal(r.b)
         if ex.branch_bool(ok, "all/any closure") != want_all:
             return VBool(not want_all)
+
+
+def m_iter_enumerate(ex, callee, args, ret_ty, frame):
+    """Iterator::enumerate: eager, (index, item) pairs (items of a by-reference iterator stay references)"""
+    it = args[0]
+    if not isinstance(it, VIter):
+        return NOT_HANDLED
+    seq = it.seq if it.kind == "owned" else deref(ex, it.src)
+    _need_concrete(seq, "enumerate")
+    out = []
+    for k, i in enumerate(range(it.pos, seq.length)):
+        item = vcopy(seq.items[i]) if it.kind == "owned" else VRef(it.src.root, it.src.path + (("i", i),), False)
+        out.append(VTuple([VInt(z3.BitVecVal(k, 64), False), item]))
+    return VIter(VSeq("?", len(out), out, ex.new_vid()), 0, None, "owned")
+
+
+def m_collect_result(ex, callee, args, ret_ty, frame):
+    """Iterator::collect::<Result<Vec<T>, E>>(): the items in order until the first Err, which is the result"""
+    items = drain(ex, args[0], frame)
+    rt = norm_ty(ret_ty) if ret_ty else "Result"
+    out = []
+    for it in items:
+        if not isinstance(it, VAdt) or base_ty(it.ty) != "Result":
+            return NOT_HANDLED
+        if adt_variant(ex, it, "collect Result item") == 1:
+            return mk_result(ex, rt, err=ex.adt_fields(it, 1)[0])
+        out.append(ex.adt_fields(it, 0)[0])
+    return mk_result(ex, rt, ok=VSeq("?", len(out), out, ex.new_vid()))
 
 
 def m_iter_unzip(ex, callee, args, ret_ty, frame):
@@ -779,6 +826,7 @@ BUILTIN = [
     (r"^Vec(::)?(<.*>)?::with_capacity$", m_vec_new),
     (r"^Vec(::)?(<.*>)?::push$", m_vec_push),
     (r"^Vec(::)?(<.*>)?::pop$", m_vec_pop),
+    (r"^Vec(::)?(<.*>)?::remove$", m_vec_remove),
     (r"^Vec(::)?(<.*>)?::len$", m_vec_len),
     (r"^(Vec(::)?(<.*>)?|<impl \[.*\]>)::is_empty$", m_vec_is_empty),
     (r"^<impl \[.*\]>::len$", m_vec_len),
@@ -793,8 +841,10 @@ BUILTIN = [
     (r"^<.+ as Iterator>::chain::<", m_iter_chain),
     (r"^<Option<.*> as PartialEq>::(eq|ne)$", m_option_eq),
     (r"^<Vec<.*> as Extend<.*>>::extend::<", m_vec_extend),
+    (r"^<.+ as Iterator>::collect::<Result<Vec<.*>, .*>>$", m_collect_result),
     (r"^<.+ as Iterator>::collect::<Vec<.*>>$", m_collect_vec),
     (r"^<.+ as Iterator>::unzip::<", m_iter_unzip),
+    (r"^<.+ as Iterator>::enumerate$", m_iter_enumerate),
     (r"^<.+ as Iterator>::(all|any)::<", m_iter_all_any),
     (r"^<.+ as Iterator>::flatten$", m_iter_flatten),
     (r"^<.+ as Iterator>::collect::<[A-Z]\w*>$", m_collect_any),
